@@ -14,6 +14,7 @@ from ..table import fmt_val
 from .c06 import _is_method, window_shape
 from .windows import WindowSpec, arg_of, loop_idioms, param_roles, prunes, unverified_loops
 from .common import HANDLE_FAILURE, SELF, attr, path_where, owned_by
+from .breaker_table import is_lock_op
 from .failure_table import failure_table
 
 B = "redress.budget:Budget"
@@ -56,6 +57,23 @@ def _now_of(e: Any) -> Any:
 SPEC = WindowSpec("Budget._prune", lambda e: EV, _now_of, attr(SELF, "window_s"))
 
 
+def bulk_append(e: Any, p: Any) -> tuple | None:
+    """`container.extend(<k copies of v>)`: (v, k) for `v for _ in range(k)` / `[v for _ in range(k)]` / `[v] * k`"""
+    if not (_is_method(e, "extend") and len(e.args) == 1 and isinstance(e.node.ast, ast.Call) and e.node.ast.args):
+        return None
+    a = e.node.ast.args[0]
+    if isinstance(a, (ast.GeneratorExp, ast.ListComp)) and len(a.generators) == 1 and not a.generators[0].ifs and isinstance(a.elt, ast.Name):
+        it = a.generators[0].iter
+        if isinstance(it, ast.Call) and isinstance(it.func, ast.Name) and it.func.id == "range" and len(it.args) == 1 and isinstance(it.args[0], ast.Name):
+            tgt = a.generators[0].target
+            if isinstance(tgt, ast.Name) and tgt.id != a.elt.id:
+                return (p.local_at(e, a.elt.id) or ("param", a.elt.id), p.local_at(e, it.args[0].id) or ("param", it.args[0].id))
+    t = e.args[0]
+    if isinstance(t, tuple) and t[0] == "op" and t[1] == "*" and t[2][0] == "tuple" and len(t[2][1]) == 1:
+        return (t[2][1][0], t[3])
+    return None
+
+
 def budget_shape(rep: Report, rid: str, prog: Program) -> None:
     fi = prog.func(f"{B}.consume")
     rep.analysed(fi.qual)
@@ -84,14 +102,15 @@ def budget_shape(rep: Report, rid: str, prog: Program) -> None:
             clocks = [e for e in imp if e.lib() == "time.monotonic"]
             prs = prunes(p, SPEC, idioms, top)
             apps = [e for e in imp if _is_method(e, "append")]
-            other = [e for e in imp if e not in clocks + [x.event for x in prs] + apps]
+            bulk = [(e, bulk_append(e, p)) for e in imp if _is_method(e, "extend") and e.recv == EV and bulk_append(e, p) is not None]
+            other = [e for e in imp if e not in clocks + [x.event for x in prs] + apps + [b[0] for b in bulk] and not is_lock_op(e)]
             if len(clocks) != 1 or len(prs) != 1 or other:
                 problem = f"expected one time.monotonic(), one prune of the window; found clocks={len(clocks)} prunes={len(prs)} other={[e.label for e in other]}"
             else:
                 now = clocks[0].result
                 if prs[0].now != now or prs[0].container != EV:
                     problem = "prune is not given the clock reading of this call"
-                withs = [e for e in p.events if e.kind == "with_enter"]
+                withs = [e for e in p.events if e.kind == "with_enter" or (e.kind == "call" and is_lock_op(e) and e.node.ast.func.attr == "acquire")]
                 if len(withs) != 1 or prs[0].index < p.index_of(withs[0]):
                     problem = problem or "prune/test/append are not inside one `with self._lock` block"
                 # capacity literal
@@ -115,7 +134,7 @@ def budget_shape(rep: Report, rid: str, prog: Program) -> None:
                     problem = problem or "capacity test is not `len(_events) + cost > max_retries`"
                 elif cap:
                     n_full += 1
-                    if apps or p.exit != ("return", ("const", False)):
+                    if apps or bulk or p.exit != ("return", ("const", False)):
                         problem = problem or f"full window must return False without recording; found appends={len(apps)}, result {show(p.exit[1])}"
                     if prs[0].index > max((i for i, it in enumerate(p.items) if it[0] == "cond" and it[3].info.get("loop_test_of") is None), default=0):
                         problem = problem or "capacity is tested before pruning"
@@ -128,9 +147,15 @@ def budget_shape(rep: Report, rid: str, prog: Program) -> None:
                     in_loop = bool(apps)
                     if p.exit != ("return", ("const", True)):
                         problem = problem or f"granted path returns {show(p.exit[1])}"
+                    if bulk and not apps:
+                        # the grant recorded in one call: exactly `cost` copies of this call's clock reading
+                        if len(bulk) != 1 or bulk[0][1] != (now, COST):
+                            problem = problem or f"the grant must record exactly `cost` entries of `now`; found extend of {[(show(b[1][0]), show(b[1][1])) for b in bulk]}"
+                        in_loop, trip = True, COST
+                        apps = []
                     if trip != COST:
                         problem = problem or f"appends are not made by a loop of exactly `cost` iterations (iterable {show(its[0].recv) if its else None})"
-                    if in_loop and (len(apps) != 1 or apps[0].recv != EV or apps[0].args != [now]):
+                    if in_loop and not bulk and (len(apps) != 1 or apps[0].recv != EV or apps[0].args != [now]):
                         problem = problem or "loop body must be exactly one self._events.append(now)"
                     if not in_loop and not p.truncated:
                         # the zero-iteration path of the loop (cost >= 1 makes it infeasible) - fine
@@ -158,8 +183,40 @@ def budget_shape(rep: Report, rid: str, prog: Program) -> None:
         want2 = ("pure", "max", (("const", 0), ("op", "-", MR, ("pure", "len", (EV,), ()))), ())
         prs = prunes(p, SPEC, ridioms, rtop)
         clocks = [e for e in imp if e.lib() == "time.monotonic"]
-        rest_ev = [e for e in imp if e not in clocks and e not in [x.event for x in prs]]
-        ok = p.exit[0] == "return" and p.exit[1] in (want, want2) and len(clocks) == 1 and len(prs) == 1 and not rest_ev and prs[0].now == clocks[0].result and prs[0].container == EV and p.index_of(clocks[0]) < prs[0].index
+        rest_ev = [e for e in imp if e not in clocks and e not in [x.event for x in prs] and not is_lock_op(e)]
+        val_ok = p.exit[0] == "return" and p.exit[1] in (want, want2)
+        if p.exit[0] == "return" and not val_ok:
+            # decided by value: max(max_retries - len, 0) for a window that is short of / exactly at / beyond capacity
+            from ..paths import CannotEval, evaluate, truth
+
+            LENT = ("pure", "len", (EV,), ())
+            val_ok = True
+            n_eval = 0
+            for ln in (0, 3, 5, 7):
+
+                def leafr(t: Any, ln: int = ln) -> Any:
+                    if t == MR:
+                        return 5
+                    if t == LENT:
+                        return ln
+                    if t[0] == "pure" and t[1] in ("max", "min") and not t[3]:
+                        vs = [evaluate(x, leafr) for x in t[2]]
+                        return max(vs) if t[1] == "max" else min(vs)
+                    if t[0] == "op" and t[1] in ("+", "-"):
+                        a_, b_ = evaluate(t[2], leafr), evaluate(t[3], leafr)
+                        return a_ + b_ if t[1] == "+" else a_ - b_
+                    raise CannotEval()
+
+                try:
+                    if any(truth(a, leafr) != pol for a, pol, _ in p.conds if contains_any(a, (MR, LENT))):
+                        continue
+                    n_eval += 1
+                    if evaluate(p.exit[1], leafr) != max(5 - ln, 0):
+                        val_ok = False
+                except CannotEval:
+                    val_ok = False
+            val_ok = val_ok and n_eval > 0
+        ok = val_ok and len(clocks) == 1 and len(prs) == 1 and not rest_ev and prs[0].now == clocks[0].result and prs[0].container == EV and p.index_of(clocks[0]) < prs[0].index
         if ok:
             rep.ok(rid)
         else:
@@ -206,27 +263,7 @@ def rest(rep: Report, prog: Program) -> None:
             rep.fail("R10.3", f"consume-site|{fn.qual}", f"{fn.qual} calls Budget.consume({ast.unparse(n)[:40]}): retries are granted (one token each) only in _handle_failure", where=fn.where(n), function=fn.qual)
     if not sites:
         raise AnalysisError("no Budget.consume site found on the run path")
-    T = failure_table(prog)
-    bad = set()
-    for val, outs in T.rows:
-        for o, ps in outs.items():
-            rep.instance("R10.3", "row|" + fmt_val(val))
-            problem = None
-            if val["budget_set"] and o.decision == "retry" and o.n_consume != 1:
-                problem = "retry granted with a budget present but no token consumed"
-            elif o.n_consume == 1 and not val["budget_ok"] and (o.decision != "raise" or o.reasons != ("BUDGET_EXHAUSTED",)):
-                problem = f"refused token but decision {o.decision} {o.reasons}"
-            elif o.n_consume == 1 and val["budget_ok"] and o.decision != "retry":
-                problem = f"token granted and spent, yet no retry follows ({o.decision} {o.reasons})"
-            elif not val["budget_set"] and o.n_consume:
-                problem = "consume called without a budget"
-            elif o.reasons == ("BUDGET_EXHAUSTED",) and (not val["budget_set"] or val["budget_ok"]):
-                problem = "BUDGET_EXHAUSTED reported although the budget did not refuse"
-            if problem and problem not in bad:
-                bad.add(problem)
-                rep.fail("R10.3", "gate|" + problem[:50], f"_handle_failure [{fmt_val(val)}]: {problem}", where=path_where(prog, HANDLE_FAILURE, ps[0]), function=HANDLE_FAILURE, path=ps[0].describe())
-            elif not problem:
-                rep.ok("R10.3")
+    gate_rows(rep, "R10.3", prog)
     init = prog.func("redress.policy.base:_BaseRetryPolicy.__init__")
     rets = [q for q in engine(prog).paths(init) if q.exit[0] == "return"]
     # every constructed policy holds the caller's Budget object itself
@@ -248,6 +285,31 @@ def rest(rep: Report, prog: Program) -> None:
 
     sugar_setattr(rep, "R10.3b", prog)
     rep.floor("R10.3b", 8)
+
+
+def gate_rows(rep: Report, rid: str, prog: Program) -> None:
+    """rows of the _handle_failure table that involve the budget: a token is spent exactly for a granted retry"""
+    T = failure_table(prog)
+    bad = set()
+    for val, outs in T.rows:
+        for o, ps in outs.items():
+            rep.instance(rid, "row|" + fmt_val(val))
+            problem = None
+            if val["budget_set"] and o.decision == "retry" and o.n_consume != 1:
+                problem = "retry granted with a budget present but no token consumed"
+            elif o.n_consume == 1 and not val["budget_ok"] and (o.decision != "raise" or o.reasons != ("BUDGET_EXHAUSTED",)):
+                problem = f"refused token but decision {o.decision} {o.reasons}"
+            elif o.n_consume == 1 and val["budget_ok"] and o.decision != "retry":
+                problem = f"token granted and spent, yet no retry follows ({o.decision} {o.reasons})"
+            elif not val["budget_set"] and o.n_consume:
+                problem = "consume called without a budget"
+            elif o.reasons == ("BUDGET_EXHAUSTED",) and (not val["budget_set"] or val["budget_ok"]):
+                problem = "BUDGET_EXHAUSTED reported although the budget did not refuse"
+            if problem and problem not in bad:
+                bad.add(problem)
+                rep.fail(rid, "gate|" + problem[:50], f"_handle_failure [{fmt_val(val)}]: {problem}", where=path_where(prog, HANDLE_FAILURE, ps[0]), function=HANDLE_FAILURE, path=ps[0].describe())
+            elif not problem:
+                rep.ok(rid)
 
 
 def invariant(rep: Report, prog: Program) -> None:
@@ -304,17 +366,20 @@ def invariant(rep: Report, prog: Program) -> None:
         n += 1
         construct = "consume|" + "|".join(p.describe()[-3:])[:120]
         rep.instance("R10.4", construct)
-        other_growth = [e for e in p.events if e.kind == "call" and not e.pure and e.recv == EV and not _is_method(e, "append") and not _is_method(e, "popleft")]
+        bulk = [bulk_append(e, p) for e in p.events if e.kind == "call" and _is_method(e, "extend") and e.recv == EV]
+        other_growth = [e for e in p.events if e.kind == "call" and not e.pure and e.recv == EV and not _is_method(e, "append") and not _is_method(e, "popleft") and not (_is_method(e, "extend") and bulk_append(e, p) is not None)]
         if other_growth:
             rep.fail("R10.4", "consume|growth", f"Budget.consume: _events is changed by {[e.label for e in other_growth]}", where=path_where(prog, fi.qual, p), function=fi.qual, path=p.describe())
             continue
-        if not apps:
+        if not apps and not bulk:
             rep.ok("R10.4")  # L_end <= L_test <= L_0 <= max_retries
             continue
         # growth = (#appends in one iteration) * trip count of the enclosing range(...) loop
         trip = None
         if len(its) == 1 and its[0].recv[0] == "pure" and its[0].recv[1] == "range" and len(its[0].recv[2]) == 1:
             trip = its[0].recv[2][0]
+        if bulk and not apps and len(bulk) == 1 and bulk[0] is not None:
+            trip, apps = bulk[0][1], [None]
         if trip is None:
             rep.fail("R10.4", "consume|growth-unknown", "Budget.consume: appends are not made by a single `for _ in range(n)` loop: growth of the window cannot be bounded", where=path_where(prog, fi.qual, p), function=fi.qual, path=p.describe())
             continue
@@ -343,3 +408,9 @@ def invariant(rep: Report, prog: Program) -> None:
     if n < 2:
         raise AnalysisError("R10.4: fewer than two returning paths in Budget.consume")
     rep.floor("R10.4", 5)
+
+
+def contains_any(t: Any, subs: tuple) -> bool:
+    from ..paths import contains
+
+    return any(contains(t, x) for x in subs)
